@@ -72,6 +72,11 @@ class Matcher:
             if op.get("inst") in self.dead and op["op"] != "new":
                 self.add("op_exc", n, expected="construction failed", actual="machine exists")
                 break
+            if op.get("timeout") is not None and (out.get("exc") or {}).get("cls") == "TimeoutError":
+                self.resync_after_cancel(n, op, out, segs.get(n, []))
+                if self.findings and stop_at_first:
+                    break
+                continue
             exp = fn(op, n)
             self.exp_by_op[n] = exp
             if op["op"] == "new":
@@ -84,6 +89,31 @@ class Matcher:
             if self.findings and stop_at_first:
                 break
         return self.findings
+
+    def resync_after_cancel(self, n, op, out, seg):
+        """The operation was cancelled at a virtual time (wait_for).  The expected state is the state
+        the cancelled callback saw when it began; the queue must be empty and the machine usable."""
+        tag = op["inst"]
+        inst = self.ref.insts[tag]
+        rp = inst.rp
+        begins = {r["q"]: r for r in seg if r["k"] == "cb+" and r["i"] == tag}
+        seen = []
+        for r in seg:
+            if r["k"] == "cb-" and r["out"][0] == "exc" and r["out"][1].get("cls") == "CancelledError":
+                b = begins.get(r["r"])
+                if b is not None:
+                    seen.append(rp.id_of_value.get(vkey(b["sv"])))
+        obs = out.get("obs") or {}
+        exp_state = seen[0] if seen and all(x == seen[0] for x in seen) else obs.get("cs")
+        self.exp_by_op[n] = {"exc": {"cls": "TimeoutError"}, "execs": [], "cancelled": True,
+                             "state": exp_state}
+        if exp_state is not None and obs.get("cs") != exp_state:
+            self.add("op_state", n, expected=exp_state, actual=obs.get("cs", obs.get("cs_err")),
+                     after="cancellation")
+        inst.state = exp_state if exp_state is not None else inst.state
+        del inst.queue[:]
+        inst.processing = False
+        self.stats["cancelled_ops"] = self.stats.get("cancelled_ops", 0) + 1
 
     def check_op(self, n, op, exp, out, seg):
         tag = op.get("inst")
@@ -129,6 +159,8 @@ class Matcher:
             return False
         if "sim_id" in ee:
             return ee["sim_id"] == ae.get("sim_id")
+        if "sim_cb" in ee:
+            return (ae.get("sim_id") or [None])[0] == ee["sim_cb"]
         if ee["cls"] == "TransitionNotAllowed":
             return ee.get("event") == ae.get("event") and ee.get("state") == ae.get("state")
         return True
@@ -285,6 +317,30 @@ class Matcher:
                     self._barrier(ctx, prev, fb, it)
                 prev = it
             return
+        # guards: a started guard is awaited to completion before the next phase begins (C05)
+        for gi, it in enumerate(items):
+            if it["g"] != "guards" or not it["_got"]:
+                continue
+            nxt = None
+            for it2 in items[gi + 1:]:
+                if it2["_got"]:
+                    nxt = min(r["q"] for r, _ in it2["_got"])
+                    break
+            for r, _m in it["_got"]:
+                e = ctx["ends"].get(r["q"])
+                if e is None or (nxt is not None and e["q"] > nxt):
+                    self.add("guard_barrier", n, cb=r["c"], ended=(e["q"] if e else None),
+                             next_began=nxt, event=it["ev"])
+                    break
+        # everything that was started has ended when the operation returns (fault-free operations)
+        if level == 0 and not any(it.get("failing") for it in items):
+            for it in items:
+                for r, _m in it["_got"]:
+                    if r.get("g") in ("cond", "unless"):
+                        continue
+                    if ctx["ends"].get(r["q"]) is None:
+                        self.add("unfinished", n, cb=r["c"], group=it["g"])
+                        break
         # barrier: every end of group k precedes every begin of the next non-guard group
         prev = None
         for it in items:
